@@ -62,7 +62,7 @@ CHECKS["C13"] = ("distsim", "exploration", "deterministic simulation with fault 
    "Validated distributions of all 11 families (corner and random parameters) are sampled under adversarial prefixes of the random source, directly and as timeout/duration/limit/counter value inside a framework; a panic, hang (word budget / CPU limit) or out-of-range value is a violation. Parameter candidates deliberately reach one step beyond every limit validation sets (Binomial trials and probabilities, Uniform ranges up to f64::MAX, NaN / infinite / negative parameters) and are filtered by validation itself, and distributions validation rejects are offered to machine validation in every slot that holds one: whatever a relaxed validation lets through is sampled. Two defects of the rand_distr dependency (D5 hang, D9 assertion) are matched narrowly as known findings.",
    "'Real number' read as not-NaN (+inf is produced by validated parameters by construction); D5's trigger generated at a reduced rate.", "DESIGN.md §6 C13, §8")
 CHECKS["C11"] = ("codec", "fault_enumeration", "deterministic simulation with fault injection on the stored artefact: corruption catalogue and exhaustive truncation/bit-flip sweeps on machine strings, compression bombs under a counting allocator, restart-from-strings behavioural comparison",
-   "Fault-free baseline (round trip incl. sizes crossing 32 KiB / 256 KiB compressed and approaching 1 MiB, behavioural identity under a fault-injected history) plus the storage-fault catalogue against from_str and the legacy v1 parser; every truncation point and single-bit flip of small encodings is enumerated; peak memory of from_str is measured against 192 MiB + 4*len(input). Well-formed encodings of machines with exactly one invalid field must be refused exactly as Machine::new refuses them. Every case runs on a thread of its own and parses a valid reference string before and after its inputs: an error return is a fault after which the parser must be as good as new (history independence).",
+   "Fault-free baseline (round trip incl. sizes crossing 32 KiB / 256 KiB compressed and approaching 1 MiB, behavioural identity under a fault-injected history) plus the storage-fault catalogue against from_str and the legacy v1 parser; every truncation point and single-bit flip of small encodings is enumerated; peak memory of from_str is measured against 192 MiB + 4*len(input). Well-formed encodings of machines with exactly one invalid field must be refused exactly as Machine::new refuses them; where validation accepts the altered machine, the machine the parser hands out is driven for 30 events and must not bring the framework down. Every case runs on a thread of its own and parses a valid reference string before and after its inputs: an error return is a fault after which the parser must be as good as new (history independence).",
    "Round trip is input generation (the no-fault baseline of the channel). Memory constant derived from the largest machine a 1 MiB payload can describe (measured peak 68 MB).", "DESIGN.md §6 C11")
 CHECKS["C20"] = ("ffisim", "exploration", "deterministic simulation: C API and Rust framework in lock-step under a virtual clock and seeded entropy (hook H3), canary-guarded output buffers, start-argument fault injection, start/stop cycles under a counting allocator",
    "Seeded batches over all event types and ids drive maybenot_on_events and identically seeded Rust reference frameworks; every written action is compared field for field, guard slots and unused slots must stay untouched, count <= num_machines; start arguments (framings, non-UTF-8, corrupt strings, bad fractions, null pointers) are compared with a harness-side reference of the Rust API; repeated start/stop must return the heap to its previous level, and so must every start that fails (null out pointer with valid machines, every rejected start-argument case); null pointers are tried with a one-event and with an empty batch.",
